@@ -169,6 +169,9 @@ cdef inline bint validate_union(
     dict options,
 ) except -1:
     if isinstance(datum, tuple) and not options.get("disable_tuple_notation"):
+        if len(datum) != 2:
+            # not a (name, value) pair
+            return False
         (name, datum) = datum
         for candidate in schema:
             # Same naming as the writer uses for (name, value) tuples
